@@ -19,6 +19,7 @@ STEP_RULES = [
     (r'_buffer\[(\d)\]', r'BUF_AT(\1)', None), (r'_buffer\.length\(\)', 'g_buflen', None),
     (r'\(wchar_t\)strtoul\(unicode, NULL, 16\)', '(wchar_t)vf_hex4(unicode)', None),
     (r'State\(\(CTX_TOP\(\) == ROOT\) \? WAIT_VALUE : WAIT_SEP\)', '(State)((CTX_TOP() == ROOT) ? WAIT_VALUE : WAIT_SEP)', None),
+    (r'(?<![\w)])State\(', '(State)(', None),      # any other functional cast to State
 ]
 
 def parser_cuts():
